@@ -4,7 +4,8 @@ Model: coq/Model/Graph.v   Theorems: coq/Props/C13.v
 Implementation: Eups.getDependentProducts(p, topological in {F,T}) for every declared product,
 getDependentProducts(p, checkCycles=True), Eups.uses(x[, v]) for every target, on random product graphs
 materialised as real stacks (harness/stackgen.py).  The components and layers that utils.topologicalSort
-computes are captured through wrappers and compared with the model's.
+computes are captured through wrappers and compared with the model's.  The model follows the code with D2, D15
+and D16 repaired (D16: proposed_fixes/C13-topological-depth-per-product); no open finding, no matcher.
 
 The model takes resolved edges: for every table line the harness asks the real code what it denotes
 (Action.processArgs + Eups.findProductFromVRO under the line's VRO, exactly as Table.dependencies does) and,
